@@ -682,6 +682,11 @@ def _basic_view(a, index):
 
 def _int_index_array(i, n, what="index array"):
     """normalise an advanced integer index (SArr/list/ndarray) against dim n -> SArr of non negative ints"""
+    if isinstance(i, np.ndarray) and i.dtype.kind == "b" and i.ndim == 1:
+        cn = conc(n)
+        if cn is not None and cn != i.shape[0]:
+            raise IndexError(f"boolean index did not match indexed array along axis; size of axis is {cn} but size of corresponding boolean axis is {i.shape[0]}")
+        i = np.flatnonzero(i)           # concrete mask: its index set is concrete
     ia = as_sarr(i)
     if ia.dtype.kind == "b":
         if ia.ndim != 1:
@@ -961,6 +966,21 @@ def where1d(mask):
         ms0 = ms
         ms = lambda idx: cast_term(mask.dtype, bool, ms0(idx))   # noqa
     n = T(mask.shape[0])
+    # the enumeration of an index set is unique: the same mask (same element function, same length) gets the same instance
+    cx_ = cur()
+    probe = z3.Int("where!probe")
+    with capture_facts():
+        key = (z3.simplify(ms((probe,))).sexpr(), z3.simplify(n).sexpr())
+    if cx_ is not None:
+        cache = getattr(cx_, "where_cache", None)
+        if cache is None:
+            cache = cx_.where_cache = {}
+        hit = cache.get(key)
+        if hit is not None:
+            out0 = hit
+            out = SArr(np.dtype("int64"), out0.shape, out0._elem)
+            out.inverse, out.mask, out.count, out.where_of = out0.inverse, out0.mask, out0.count, out0.where_of
+            return out
     cnt = z3.Int(fresh_name("nnz"))
     w = z3.Function(fresh_name("where"), z3.IntSort(), z3.IntSort())
     rank = z3.Function(fresh_name("rank"), z3.IntSort(), z3.IntSort())
@@ -983,6 +1003,7 @@ def where1d(mask):
     c_ = cur()
     if c_ is not None:
         c_.where_log.append(info)
+        c_.where_cache[key] = out
     return out
 
 
